@@ -1,0 +1,80 @@
+//go:build verif
+
+package nebula
+
+// Verification hooks for the `relayctl` correspondence engine (build tag verif only): thin wrappers
+// over the relay manager / relay send path for a harness that plays hostile peers and a lying relay.
+// Uses VerifNode from verif_outside.go.
+
+import (
+	"net/netip"
+)
+
+// CloseTunnelLocal is Interface.closeTunnel on the hostinfo registered under the local index.
+func (n *VerifNode) CloseTunnelLocal(localIndex uint32) bool {
+	hi := n.F.hostMap.QueryIndex(localIndex)
+	if hi == nil {
+		return false
+	}
+	n.F.closeTunnel(hi)
+	return true
+}
+
+// HandleControl is relayManager.HandleControlMsg for the hostinfo registered under the local index.
+func (n *VerifNode) HandleControl(localIndex uint32, d []byte) bool {
+	hi := n.F.hostMap.QueryIndex(localIndex)
+	if hi == nil {
+		return false
+	}
+	n.F.relayManager.HandleControlMsg(hi, d, n.F)
+	return true
+}
+
+// SendViaIndex is Interface.SendVia through the relay record `relayIdx` of the hostinfo that owns
+// that relay index (hm.Relays), with an arbitrary payload: what a relay that rewrites relayed
+// payloads, or forwards them on another relay record, would emit.
+func (n *VerifNode) SendViaIndex(relayIdx uint32, payload []byte) bool {
+	hi := n.F.hostMap.QueryRelayIndex(relayIdx)
+	if hi == nil {
+		return false
+	}
+	r, ok := hi.relayState.QueryRelayForByIdx(relayIdx)
+	if !ok {
+		return false
+	}
+	n.F.SendVia(hi, r, payload, make([]byte, 12, 12), make([]byte, mtu), false, 0)
+	return true
+}
+
+// ClearRemote makes the hostinfo for vpnAddr unreachable directly (what a failed direct path
+// leaves behind), so that sends take the relay branch of sendInsideMessage / sendNoMetrics.
+func (n *VerifNode) ClearRemote(localIndex uint32) bool {
+	hi := n.F.hostMap.QueryIndex(localIndex)
+	if hi == nil {
+		return false
+	}
+	hi.remote.Store(nil)
+	return true
+}
+
+func (n *VerifNode) AddRelayTo(localIndex uint32, relay netip.Addr) bool {
+	hi := n.F.hostMap.QueryIndex(localIndex)
+	if hi == nil {
+		return false
+	}
+	hi.relayState.InsertRelayTo(relay)
+	return true
+}
+
+func VerifProtoAddr(a netip.Addr) *Addr { return netAddrToProtoAddr(a) }
+
+// SendViaRaw is Interface.SendVia through the hostinfo registered under the local index, with a
+// caller-chosen relay index in the outer header: what an authenticated but hostile peer can emit.
+func (n *VerifNode) SendViaRaw(localIndex uint32, relayRemoteIndex uint32, payload []byte) bool {
+	hi := n.F.hostMap.QueryIndex(localIndex)
+	if hi == nil {
+		return false
+	}
+	n.F.SendVia(hi, &Relay{RemoteIndex: relayRemoteIndex}, payload, make([]byte, 12, 12), make([]byte, mtu), false, 0)
+	return true
+}
